@@ -172,8 +172,26 @@ def check_scan(ctx, prog):
     else:
         ctx.ok('R-SCAN', f['pq'], role, fwhere(f), '%d abstract strings: 1 <= n <= bytes before the terminator, no read past it' % runs)
     inc = fn1(prog, 'asl::String::Enumerator::operator++')
-    adv = [e for e in fn_exprs(inc) if e.get('k') == 'bin' and e.get('op') == '+=' and strip_lv(e['x']).get('f') == 'u' and strip(e['y']).get('f') == 'n']
-    ctx.check(len(adv) == 1, 'R-SCAN', inc['pq'], 'operator++:advances by n', fwhere(inc), 'u += n', 'Enumerator::operator++ does not advance by exactly the length computed by operator*')
+    # operator++ interpreted: the cursor moves by exactly the length operator* left in n
+    ctx.analysed(inc)
+    moved = und_ = None
+    for nv in (1, 2, 3, 4):
+        ri = scansim.Run(prog, inc, {'IN': [0x41] * 8 + [0]}, mem_ptrs={'u': ('P', 'IN', 1)}, mems={'n': nv}, methods={'*': 'interp'})
+        ctx.evaluations += 1
+        try:
+            ri.run()
+        except (scansim.Unsupported, scansim.OOB, TypeError, KeyError) as u_:
+            und_ = str(u_)
+            break
+        after = ri.mems.get('u')
+        if after != ('P', 'IN', 1 + nv):
+            moved = (nv, after)
+            break
+    if und_:
+        ctx.undecided('R-SCAN', inc['pq'], 'operator++:advances by n', fwhere(inc), 'outside the interpreted fragment: %s' % und_)
+    else:
+        ctx.check(moved is None, 'R-SCAN', inc['pq'], 'operator++:advances by n', fwhere(inc), 'interpreted for n = 1..4: the cursor moves by n',
+                  'Enumerator::operator++ does not advance by exactly the length computed by operator* (n = %s: cursor at %s)' % (moved or (0, 0)))
     ctx.floor('R-SCAN', n, 6)
 
 
@@ -261,6 +279,16 @@ def check_term(ctx, prog):
             appended = base is not None and any(x.get('k') == 'call' and x.get('op') == '<<' and strip(x.get('obj') or {}).get('id') == base['id'] and const_val(x['a'][0]) == 0 for x in prior)
             if appended:
                 ctx.ok('C08.term', g['pq'], role, where, 'a terminator was appended to the source array')
+                continue
+            # otherwise the calling function is interpreted with the converter replaced by a probe that walks its source to the
+            # terminator: arrays of 0, 1 and 3 non-zero elements as arguments, the String's own buffer abstracted
+            iv = interp_term_site(prog, g, e, si, ni, safe)
+            ctx.evaluations += 3
+            if iv is not None and iv[0] == 'ok':
+                ctx.ok('C08.term', g['pq'], role, where, iv[1])
+                continue
+            if iv is not None and iv[0] == 'bad':
+                ctx.violation('C08.term', g['pq'], role, where, '%s: %s' % (g['q'], iv[1]))
                 continue
             # local fixed array whose elements are set explicitly, with a constant count handled above
             is_param_array = base is not None and base.get('vk') == 'param' and T(g, T(g, base.get('t')).get('to') or base.get('t')).get('recp') == 'asl::Array'
@@ -1079,21 +1107,74 @@ def check_fixed_buffers(ctx, prog, rule, only_file=None):
 
 def check_heap_destinations(ctx, prog):
     # heap destinations sized 4 bytes per code
+    import bounded
     for name, sig, factor in (('asl::String::fromCodes', None, 4), ('asl::String::fromCode', None, 4)):
         f = fn1(prog, name, sig)
         ctx.analysed(f)
-        ok = False
-        for s_ in ir.walk_stmts(f['body']):
-            if s_.get('k') == 'decl':
-                for v in s_['vars']:
-                    ini = strip(v.get('init') or {})
-                    if ini.get('k') == 'construct' and ini.get('cls') == 'asl::String' and ini.get('a'):
-                        a0 = strip(ini['a'][0])
-                        if const_val(a0) is not None:
-                            ok = ok or const_val(a0) >= factor
-                        elif a0.get('k') == 'bin' and a0.get('op') == '*' and (const_val(a0['y']) or const_val(a0['x']) or 0) >= factor:
-                            ok = True
-        ctx.check(ok, 'C08.outbuf', f['pq'], f['n'] + ':4 bytes per code', fwhere(f), 'destination sized 4 bytes per code', '%s sizes its destination with fewer than 4 bytes per code' % name)
+        role = f['n'] + ':4 bytes per code'
+        encs = [e for e in fn_exprs(f) if e.get('k') == 'call' and e.get('fn') in ENCODERS]
+        if len(encs) != 1:
+            ctx.undecided('C08.outbuf', f['pq'], role, fwhere(f), '%d encoder calls' % len(encs))
+            continue
+        enc = encs[0]
+        dest = strip(q.expand(f, enc['a'][1]))
+        while dest.get('k') in ('cast', 'paren'):
+            dest = strip(dest['e'])
+        ddt = T(f, dest.get('dt') or dest.get('t'))
+        if dest.get('k') == 'var' and ddt.get('arr') and ddt.get('n') is not None:
+            ctx.ok('C08.outbuf', f['pq'], role, fwhere(f, enc['l']), 'destination is the fixed buffer `%s`, sized by the fixed-buffer rule' % pe(dest))
+            continue
+        owner = strip_lv(dest.get('obj') or {}) if dest.get('k') == 'call' else {}
+        cap_e = None
+        if owner.get('k') == 'var':
+            for s_ in ir.walk_stmts(f['body']):
+                if s_.get('k') == 'decl':
+                    for v in s_['vars']:
+                        ini = strip(v.get('init') or {})
+                        if v['id'] == owner.get('id') and ini.get('k') == 'construct' and ini.get('cls') == 'asl::String' and ini.get('a'):
+                            cap_e = ini['a'][0]
+        if cap_e is None:
+            # a destination pointer that walks through the buffer (streaming encoder): the only sizing visible statically is the
+            # capacity the local String is constructed with - a constant >= 4 or a product with a factor >= 4
+            ok = False
+            for s_ in ir.walk_stmts(f['body']):
+                if s_.get('k') == 'decl':
+                    for v in s_['vars']:
+                        ini = strip(v.get('init') or {})
+                        if ini.get('k') == 'construct' and ini.get('cls') == 'asl::String' and ini.get('a'):
+                            a0 = strip(q.expand(f, ini['a'][0]))
+                            if const_val(a0) is not None:
+                                ok = ok or const_val(a0) >= factor
+                            elif a0.get('k') == 'bin' and a0.get('op') == '*' and (const_val(a0['y']) or const_val(a0['x']) or 0) >= factor:
+                                ok = True
+            if ok:
+                ctx.ok('C08.outbuf', f['pq'], role, fwhere(f, enc['l']), 'destination walks through a String constructed with 4 bytes per code')
+            else:
+                ctx.undecided('C08.outbuf', f['pq'], role, fwhere(f, enc['l']), 'destination `%s` is neither a fixed buffer nor the text of a local String constructed with a capacity' % pe(dest))
+            continue
+        # capacity and unit count evaluated with every length the expressions mention bound to L = 0..6
+        cap_x, cnt_x = q.expand(f, cap_e), q.expand(f, enc['a'][2])
+        texts = set(pe(w) for x in (cap_x, cnt_x) for w in walk_expr(x) if w.get('k') == 'call' and (w.get('pq') or '').split('::')[-1] in ('length', 'size'))
+        bad = und = None
+        for L in range(0, 7):
+            ev = bounded.Bound(prog, f, {}, dict((t_, L) for t_ in texts))
+            try:
+                cap_v, cnt_v = ev.ev(cap_x), ev.ev(cnt_x)
+            except Exception as u_:
+                und = str(u_)
+                break
+            ctx.evaluations += 1
+            if not isinstance(cap_v, int) or not isinstance(cnt_v, int):
+                und = 'capacity `%s` / count `%s` not evaluable' % (pe(cap_e), pe(enc['a'][2]))
+                break
+            if cap_v < factor * cnt_v:
+                bad = (L, cap_v, cnt_v)
+                break
+        if und:
+            ctx.undecided('C08.outbuf', f['pq'], role, fwhere(f, enc['l']), und)
+        else:
+            ctx.check(bad is None, 'C08.outbuf', f['pq'], role, fwhere(f), 'capacity `%s` >= 4 x `%s` for lengths 0..6' % (pe(cap_e), pe(enc['a'][2])),
+                      '%s sizes its destination with fewer than 4 bytes per code (length %s: capacity %s for %s code(s))' % ((name,) + (bad or (0, 0, 0))))
     f = fn1(prog, 'asl::String::String', '(const wchar_t *)')
     ctx.analysed(f)
     ok = any(e.get('k') == 'bin' and e.get('op') == '*' and (const_val(e['x']) or 0) >= 3 for e in fn_exprs(f))
@@ -1425,3 +1506,47 @@ def check_count(ctx, prog):
         ctx.undecided('C08.count', f['pq'], role, fwhere(f), 'outside the interpreted fragment: %s' % und)
     else:
         ctx.check(bad is None, 'C08.count', f['pq'], role, fwhere(f), 'interpreted on %d valid texts covering every lead byte C2..F4 with its extreme continuations' % len(texts), bad or '')
+
+
+def interp_term_site(prog, g, call, si, ni, safe):
+    """-> ('ok', text) | ('bad', text) | None.  g is interpreted (scansim, object model) for argument arrays of 0, 1 and 3
+    non-zero elements; the converter call is replaced by a probe that reads the source the way the converter does (unit
+    before count): it must meet a terminator inside the source's storage, or be counted with n >= 1 where n bounds the reads."""
+    import scansim
+    arr_params = [p_ for p_ in g['params'] if T(g, p_['t']).get('ref') and T(g, T(g, p_['t']).get('to')).get('recp') == 'asl::Array']
+    if len(arr_params) != 1 or len(g['params']) != 1:
+        return None
+    shapes = ([], [0x41], [0x41, 0x20ac, 0x42])
+    for vals in shapes:
+        probe = {'seen': False}
+
+        def conv(run, e, args, probe=probe):
+            probe['seen'] = True
+            src = args[si]
+            n_ = args[ni] if ni is not None else None
+            if not (isinstance(src, tuple) and src[0] == 'P'):
+                raise scansim.Unsupported('source of the converter')
+            j = 0
+            while True:
+                if isinstance(n_, int) and n_ >= 1 and safe.get(1) and j >= n_:
+                    break
+                u = run.load(('P', src[1], src[2] + j), e.get('l'))        # OOB when the walk leaves the storage
+                if u == 0:
+                    break
+                j += 1
+            return j
+        pid = arr_params[0]['id']
+        bufs = {('O', pid): list(vals), 'OUT': []}
+        r = scansim.Run(prog, g, bufs, growable=('OUT',), call_ptrs={'str': ('P', 'OUT', 0), 'data': ('P', 'OUT', 0)},
+                        methods={'init': lambda run, e, args: 0, 'alloc': lambda run, e, args: 0, 'cap': lambda run, e, args: 1 << 20, 'fix': lambda run, e, args: 0, '*': 'interp'},
+                        externs={call['fn']: conv}, objects=True, mems={'_len': 0, '_size': 0})
+        r.objlen[pid] = len(vals)
+        try:
+            r.run()
+        except scansim.OOB as o:
+            return 'bad', 'for an argument array of %d element(s) the source handed to %s has no terminator inside its storage - the converter tests the unit before the count and reads past it (%s)' % (len(vals), call['fn'].split('::')[-1], o)
+        except (scansim.Unsupported, TypeError, KeyError, IndexError, AttributeError):
+            return None
+        if not probe['seen']:
+            return None
+    return 'ok', 'interpreted for argument arrays of 0, 1 and 3 elements: the converter meets a terminator inside the source it is handed'
